@@ -1,1 +1,119 @@
-From InvokeVerif Require Import Corr.C11Corr.
+(** C11 -- Clones are faithful and independent; supplied data is never mutated.
+    Statements only; proofs are in Proofs/C11_clone.v.
+
+    What is proved is the "faithful" half on the pure model.  Independence of
+    original and clone and non-mutation of supplied data are statements about
+    object identity, which a pure functional model cannot express (they would be
+    vacuously true): they are checked by the snapshot / object-identity test of
+    the correspondence harness (harness/props/c11.py), and the evidence says so. *)
+From InvokeVerif Require Import Common.Tree Common.StrUtil Model.MergeModel Model.ConfigModel
+     Spec.C03Spec Proofs.C03_order Proofs.C11_clone.
+
+(** [copy_dict] (the recursive copy used for every level) returns an equal
+    dict: same keys, same order, same values, at every depth. *)
+Theorem C11_copy_dict_identity : forall kids,
+  wf (Node kids) = true -> copy_dict (Node kids) = Ok kids.
+Proof. exact copy_dict_identity. Qed.
+
+(** Guard [clone_guard c]: every level of [c] is a well-formed dict, the cache is
+    the merge of the levels (both hold in every state the correspondence has
+    ever observed; the sweep below checks them on all short histories), and the
+    system/user files have been looked for.  MISSING for the full statement: the
+    last conjunct -- a Config created with lazy=True whose base files were never
+    loaded gets them loaded by clone() (F-C11c, refuted below) -- and cloning
+    into a subclass whose global defaults disagree with the original's (F-C11b,
+    refuted below).
+    Under the guard, clone() yields a state equal to the original in every
+    component: all nine levels, the deletions mask (the repaired F-C11), the
+    found flags and the merged view. *)
+Theorem C11_clone_faithful_partial : forall fs c,
+  clone_guard c = true -> clone fs c None = (c, ONone).
+Proof. exact clone_faithful. Qed.
+
+Theorem C11_clone_view_equal_partial : forall fs c,
+  clone_guard c = true ->
+  c_cache (fst (clone fs c None)) = c_cache c /\ snd (clone fs c None) = ONone.
+Proof. exact clone_view_equal. Qed.
+
+Theorem C11_clone_levels_equal_partial : forall fs c,
+  clone_guard c = true -> strip (fst (clone fs c None)) = strip c.
+Proof. exact clone_levels_equal. Qed.
+
+(** In particular deleted keys stay deleted in the clone. *)
+Theorem C11_clone_keeps_deletions_partial : forall fs c,
+  clone_guard c = true -> c_dels (fst (clone fs c None)) = c_dels c.
+Proof. intros fs c H. rewrite clone_faithful by exact H. reflexivity. Qed.
+
+(** F-C11c: the full statement fails for a lazy, never-loaded original. *)
+Theorem C11_clone_view_equal_refuted_lazy :
+  exists fs c, state_ok c = true /\ c_cache (fst (clone fs c None)) <> c_cache c.
+Proof.
+  exists [(("sys", "json"), FData (Node [("k", Leaf (VInt 1))]))].
+  exists (blank (Node []) (Node []) (Some "sys") (Some "usr") None None "INVOKE_").
+  split; [vm_compute; reflexivity|]. vm_compute. discriminate.
+Qed.
+
+(** F-C11b: cloning into a subclass lets the subclass' global defaults override
+    a default the original defines. *)
+Theorem C11_clone_into_refuted :
+  exists fs c g p, clone_guard c = true /\
+    shape_at p (Node (c_cache c)) <> None /\
+    shape_at p (Node (c_cache (fst (clone fs c (Some g))))) <> shape_at p (Node (c_cache c)).
+Proof.
+  exists [].
+  exists (set_cache (set_user (set_system
+            (blank (Node [("a", Leaf (VInt 1))]) (Node []) (Some "sys") (Some "usr") None None "INVOKE_")
+            (Node []) FTrue (Some "py")) (Node []) FTrue (Some "py")) [("a", Leaf (VInt 1))]).
+  exists (Node [("a", Leaf (VInt 2)); ("new", Leaf (VInt 1))]), ["a"].
+  split; [vm_compute; reflexivity|]. split; vm_compute; discriminate.
+Qed.
+
+(** A test, not the property: on every history of at most 3 operations from a
+    12-letter alphabet (writes, nested writes, deletions, pop, clear, reloads,
+    dict write) over a two-level configuration, the guard holds afterwards and
+    clone() returns an equal state. *)
+Definition sweep_alphabet : list op :=
+  [ SetV Item ["a"] "x" (Leaf (VInt 1)); SetV Attr [] "k" (Leaf (VInt 2));
+    SetV Item [] "n" (Node [("m", Leaf (VInt 1))]); SetV Item [] "a" (Node [("x", Leaf (VInt 7))]);
+    Del Item ["a"] "x"; Del Attr [] "a"; Del Item [] "k"; Pop Item ["a"] "y" None;
+    Clear Item ["a"]; SetDefault Item ["a"] "z" (Some (Leaf (VInt 2)));
+    LoadDefaults (Node [("a", Node [("x", Leaf (VInt 5))])]);
+    LoadOverrides (Node [("a", Node [("y", Leaf (VInt 7))])]) ].
+
+Fixpoint histories (n : nat) : list (list op) :=
+  match n with
+  | O => [[]]
+  | S n' => [] :: flat_map (fun h => map (fun o => o :: h) sweep_alphabet) (histories n')
+  end.
+
+Definition sweep_start : result cfg :=
+  start [] (mkInit (Node [("a", Node [("x", Leaf (VInt 0)); ("y", Leaf (VInt 0))]); ("k", Leaf (VInt 1))])
+                   (Node []) None None false).
+
+Definition sweep_ok (h : list op) : bool :=
+  match sweep_start with
+  | Err _ => false
+  | Ok c0 =>
+      let c := fst (run [] c0 h) in
+      clone_guard c &&
+      match clone [] c None with
+      | (c', ONone) => tree_eqb (Node (c_cache c')) (Node (c_cache c)) &&
+                       tree_eqb (Node (c_dels c')) (Node (c_dels c)) &&
+                       tree_eqb (Node (c_mods c')) (Node (c_mods c))
+      | _ => false
+      end
+  end.
+
+Theorem C11_clone_faithful_bounded_3 : forallb sweep_ok (histories 3) = true.
+Proof. vm_compute. reflexivity. Qed.
+
+(** Non-vacuity: a state after a nested write and a deletion satisfies the guard. *)
+Example C11_example_guard :
+  match sweep_start with
+  | Ok c0 =>
+      let c := fst (run [] c0 [SetV Item ["a"] "z" (Leaf (VInt 5)); Del Item [] "k"]) in
+      clone_guard c = true /\ c_dels c = [("k", Leaf VNone)] /\
+      c_cache c = [("a", Node [("x", Leaf (VInt 0)); ("y", Leaf (VInt 0)); ("z", Leaf (VInt 5))])]
+  | Err _ => False
+  end.
+Proof. vm_compute. repeat split; reflexivity. Qed.
